@@ -27,6 +27,11 @@ P["C04"] = dict(
    note=TB + " 5 known-finding classes (sort/matmul leak payloads, mean counts nulls, integer division by a null payload of 0, logical shortcuts drop nulls, predicates on nullable ints).",
    technique="Coq decision procedure with soundness proof, re-run on the table regenerated from traced ONNX graphs + payload-pair correspondence",
    ref="DESIGN.md §5 C04")
+P["C10"] = dict(
+   text="Proof, partial. Coq theorems (closed): axes_resolve - for every rank and every valid axis argument (None, any integer incl. negative, tuples, the empty tuple) the axes ndonnx hands to ONNX Reduce* (with noop_with_empty_axes) denote exactly the axes NumPy reduces, hence ndx_reduce = np_reduce for every tensor; keepdims shape laws; an empty reduction yields the neutral element. Ties, every run: (T-src) the axis prologue and the reduce call of sum/prod/min/max are translated from today's source by an ast translator into Gallina and the theorem is re-proved on the translation; the dispatch table of _funcs.py and of the Array methods/operators is extracted and Coq proves every public function fetches its own operations-block entry and forwards every keyword under its own name (argmin->argmax or keepdims=False literals break this theorem); (in-Coq correspondence) results of sum/prod/min/max on random int64 tensors (ranks 0-4, extents incl. 0, all axis forms, keepdims) equal the executable model. Partial: values of mean/var/std/cumulative_sum/argmax/argmin/all/any and accumulator dtypes are compared with NumPy only.",
+   note=TB + " 3 known-finding classes (prod float64 refused - pinned by the repo's own tests, std float64 via float32, uint64 min/max via int64). 4 fixes committed (argmin dispatch, method keepdims, negative axes on empty input, argmax/argmin axis=None dtypes, all/any).",
+   technique="Coq theorems on an executable tensor model + ast translation of the reduction prologue and dispatch table re-proved each run + in-Coq correspondence",
+   ref="DESIGN.md §5 C10")
 NOT_YET = {}
 props = [json.loads(l) for l in open(V/'properties.jsonl')]
 checks, na = [], []
